@@ -150,4 +150,7 @@ def compare(expect, got):
                 bad.append("payload destructors: %s ran while the arena was alive, each-once-with-the-arena=%s" % (o.get("drops_while_alive"), o.get("each_dropped_once_with_arena")))
         for b in bad:
             fs.append({"prop": "C15", "kind": "macro", "detail": "%s: %s" % (e["text"], b), "case": {"invocation": e["text"], "expected": e, "observed": o}})
+            if b.startswith("payload destructors"):
+                # C08: each payload is dropped exactly once and never while its node is live - also for nodes created by tree!
+                fs.append({"prop": "C08", "kind": "macro-drops", "detail": "%s: %s" % (e["text"], b), "case": {"invocation": e["text"], "expected": e, "observed": o}})
     return fs
